@@ -29,9 +29,9 @@ def lastOfTaken (d : Bytes) : Last :=
   | none => .invalid
 
 /-- bytes a scripted reader hands over, independent of the space offered (chunks ≤ MinRead always fit) -/
-def delivered : List Nat → Nat → Bytes → Bytes
-  | [], tail, data => data.take tail
-  | k :: sizes, tail, data => data.take k ++ delivered sizes tail (data.drop k)
+def delivered (greedy : Bool) : List Nat → Nat → Bytes → Bytes
+  | [], tail, data => if greedy then data else data.take tail
+  | k :: sizes, tail, data => data.take k ++ delivered greedy sizes tail (data.drop k)
 
 def step (s : SSt) : Op → SSt × Out
   | .write p => (⟨s.data ++ p, .invalid⟩, .nErr p.length .nil)
@@ -80,12 +80,12 @@ def step (s : SSt) : Op → SSt × Out
       let s1 : SSt := if s.data.length = 0 then ⟨[], .invalid⟩ else s
       if n.toNat > allocLimit then (s1, .panic .tooLarge) else (s1, .ok)
   | .readFrom r =>
-    let d := delivered r.sizes r.tail r.data
+    let d := delivered r.greedy r.sizes r.tail r.data
     match r.term with
     | .eof => (⟨s.data ++ d, .invalid⟩, .nErr d.length .nil)
     | .err => (⟨s.data ++ d, .invalid⟩, .nErr d.length .readerErr)
-    | .neg => (⟨s.data ++ delivered r.sizes 0 r.data, .invalid⟩, .panic .negativeRead)
-    | .over => (⟨s.data ++ delivered r.sizes 0 r.data, .invalid⟩, .panic .sliceBounds)
+    | .neg => (⟨s.data ++ delivered r.greedy r.sizes 0 r.data, .invalid⟩, .panic .negativeRead)
+    | .over => (⟨s.data ++ delivered r.greedy r.sizes 0 r.data, .invalid⟩, .panic .sliceBounds)
   | .writeTo w =>
     if s.data.length = 0 then (⟨[], .invalid⟩, .wrote 0 none .nil)
     else match w with
